@@ -127,5 +127,12 @@ example : referrerOf (run init demo) 1 = some 0 ∧ referrerOf (run init demo) 0
 example : ownerOf (run init demo) 3 = some 2 ∧ codeOf (run init demo) 2 = some 3 ∧ codeOf (run init demo) 0 = none := by decide
 example : (setReferrer (run init (demo.take 8)) 0 4 1).isNone = true := by decide
 example : (accept (run init (demo.take 10)) 1 3 0).isNone = true ∧ (accept (run init (demo.take 10)) 2 3 0).isSome = true := by decide
+-- hypotheses `… = some s'` of the per-operation theorems are satisfiable on reachable non-initial states
+example : (setReferrer (run init (demo.take 4)) 1 3 0).isSome = true := by decide
+example : (transfer (run init (demo.take 9)) 0 3 2).isSome = true := by decide
+-- `referrer_never_changes` / `never_mutual`: a set referrer, followed by further operations
+example : referrerOf (run init (demo.take 5)) 1 = some 0 ∧ referrerOf (run (run init (demo.take 5)) (demo.drop 5)) 1 = some 0 := by decide
+-- `ownership_changes_only_on_accept`: an owner (0) of code 3 and one transaction that changes it
+example : ownerOf (run init (demo.take 11)) 3 = some 0 ∧ ownerOf (step (run init (demo.take 11)) (.accept 2 3 0)) 3 ≠ some 0 := by decide
 
 end Gmx.C33
